@@ -1,7 +1,7 @@
 (* tok layer (C19): tok <ms> <script> <rseed> <objs> <bodies>   (formats: see harness/src/l_tok.rs) *)
 open Util
 
-type okind = KChan | KSem | KMutex | KRw of BinNums.coq_N | KNotify | KOneshot
+type okind = KChan | KSem | KMutex | KRw of BinNums.coq_N | KNotify | KOneshot | KWatch
 
 let usize_max_shr3 = n_of_string "2305843009213693951"
 let clock0 = [BinNums.N0]
@@ -30,6 +30,13 @@ let parse_objs (s : string) : (okind * int) list * Objects.obj list =
         (KRw k, [TokOps.tok_sem_new k clock0])
       | 'n' -> (KNotify, [TokNotify.notify_new])
       | 'o' -> (KOneshot, [TokNotify.oneshot_new])
+      | 'h' ->
+        (match String.split_on_char ':' rest with
+         | [init; ntx; nrx] ->
+           let ntx = int_of_string ntx and nrx = int_of_string nrx in
+           if ntx < 1 || ntx > 2 || nrx < 1 || nrx > 3 then failwith ("bad object " ^ w);
+           (KWatch, TokWatch.watch_new (n_of_string init) (nat_of_int ntx) (nat_of_int nrx) clock0)
+         | _ -> failwith ("bad object " ^ w))
       | _ -> failwith ("bad object " ^ w) in
     next := !next + Stdlib.List.length os;
     kinds := (k, base) :: !kinds;
@@ -90,6 +97,19 @@ let parse_op (kinds : (okind * int) list) (w : string) : Tok.top =
   | "oc" -> Tok.TOsClose (ob 0)
   | "ox" -> Tok.TOsDropTx (ob 0)
   | "oy" -> Tok.TOsDropRx (ob 0)
+  | "ws" -> Tok.TWSend (ob 0, nat 1, n_of_string (arg 2))
+  | "wm" -> Tok.TWModify (ob 0, nat 1, n_of_string (arg 2), ai 3 = 1)
+  | "wp" -> Tok.TWReplace (ob 0, nat 1, n_of_string (arg 2))
+  | "wb" -> Tok.TWBorrow (ob 0, nat 1)
+  | "wu" -> Tok.TWBorrowUpd (ob 0, nat 1)
+  | "wh" -> Tok.TWHasChanged (ob 0, nat 1)
+  | "wc" -> Tok.TWChanged (ob 0, nat 1)
+  | "wf" -> Tok.TWWaitFor (ob 0, nat 1, n_of_string (arg 2))
+  | "wx" -> Tok.TWDropTx (ob 0, nat 1)
+  | "wy" -> Tok.TWDropRx (ob 0, nat 1)
+  | "wn" -> Tok.TWSubscribe (ob 0, nat 1, nat 2)
+  | "wl" -> Tok.TWClosed (ob 0, nat 1)
+  | "wi" -> Tok.TWInfo (ob 0, nat 1)
   | _ -> failwith ("bad op " ^ w)
 
 let parse_bodies kinds (s : string) : Tok.top list list =
